@@ -1,19 +1,5 @@
 #!/bin/bash
-# Final confirmation pass over every seeded change: full seed_eval (with the repository suite), sequentially.
-# usage: tools/seed_all.sh  (reads seeded/*/meta.json for the property; checks = that property)
+# Final confirmation pass over every seeded change: full seed_eval (with the repository suite), ${P:-4} at a time.
 cd /verif
-for d in seeded/*/; do
-  n=$(basename "$d")
-  prop=$(/venv/bin/python -c "import json;print(json.load(open('$d/meta.json'))['property'])" 2>/dev/null) || continue
-  extra=$(/venv/bin/python -c "import json;print(' '.join(json.load(open('$d/meta.json')).get('also_checks',[])))" 2>/dev/null)
-  mkdir -p /var/tmp/seedsrc/$n; cp $d/patch.diff $d/demo.py $d/notes.md /var/tmp/seedsrc/$n/ 2>/dev/null
-  SUITE=1 tools/seed_eval.sh /var/tmp/seedsrc/$n $n $prop $extra > /var/tmp/suite/final-$n.out 2>&1
-  /venv/bin/python - "$n" <<'PY'
-import json,sys
-from pathlib import Path
-n=sys.argv[1]; d=Path('/verif/seeded')/n
-m=json.load(open(d/'meta.json')); m['confirmed']['eval_log']=(d/'eval.log').read_text().strip().splitlines()
-json.dump(m, open(d/'meta.json','w'), indent=1)
-PY
-  echo "$n: $(grep -E 'demo on|demo with|suite with|^RESULT|^VIOLATION' $d/eval.log | cut -c1-90 | tr '\n' '|')"
-done
+ls -d seeded/*/ | xargs -n1 basename | xargs -P ${P:-4} -n1 tools/seed_one.sh
+tools/seed_readme.py
